@@ -2,6 +2,8 @@ import NavisModel.Proofs.RerootLemmas
 import NavisModel.Proofs.WfB
 import NavisModel.Proofs.OpsWF
 import NavisModel.Proofs.OpsAllLemmas
+import NavisModel.Proofs.OpsXLemmas
+import NavisModel.Proofs.SomaInterpLemmas
 /-!
 # C01 — every operation that yields a skeleton yields a well-formed skeleton
 
@@ -387,5 +389,209 @@ example : labelsOKB (applyAll unitLen [⟨1, -1, 0, 0, 0, .root⟩, ⟨2, 1, 0, 
 /-- the fall-back disjunct of `opsAll_labels_last` is needed: a last operation that returns early
 (`heal` of a single fragment) leaves stale labels in place -/
 example : labelsOKB ([OpAll.reroot 1, .heal {}].foldl (applyAll unitLen) [⟨1, -1, 0, 0, 0, .slab⟩]) = false := by decide
+
+/-! ## Second layer: skeleton states (node table + soma bookkeeping), `OpX` / `OpS`
+
+`Model/OpsX.lean` adds the constructors `OpAll` lacks — `resample_skeleton` with ANY interpolation
+`method` and `skip_errors` (`resampleSkip`: per segment collapsed / interpolated / kept because
+`interp1d` refused it), construction from a graph or edge list (`fromEdges`: `nx2neuron`, `edges2neuron`,
+`TreeNeuron(nx.Graph | (vertices, edges))`), assignment of a node table (`setNodes`: `x.nodes = df`,
+`TreeNeuron(DataFrame)`, `read_swc`), and the operations that leave ids / parents / labels alone
+(`touch`: arithmetic, smoothing, copy, pickle) — and the soma bookkeeping as a state component. -/
+
+/-! ### `resample_skeleton`, every `method=`, `skip_errors=True` -/
+
+/-- Whatever segments `interp1d` refuses (`act` is arbitrary): the result is a well-formed forest. -/
+theorem resampleSkip_preserves_WF (t : Table) (hw : WF t) (act : List Int → Resample.SegAct) :
+    WF (Resample.resampleSkip t act) := Resample.WF_resampleSkip hw act
+
+/-- … for ANY order in which the segments are visited (the order of `x.small_segments` depends on the
+row order and on the back-end; fresh ids are handed out in that order). -/
+theorem resampleSkipOn_preserves_WF (t : Table) (hw : WF t) (segs : List (List Int))
+    (hp : segs.Perm (smallSegments t)) (act : List Int → Resample.SegAct) :
+    WF (Resample.resampleSkipOn t segs act) := Resample.WF_resampleSkipOn hw hp act
+
+/-- The rows collected by the loop never contain an id twice: the `~node_id.duplicated()` filter drops
+nothing, in particular a kept segment contributes no second row for its proximal branch point. -/
+theorem resampleSkipOn_no_duplicates (t : Table) (hw : WF t) (segs : List (List Int))
+    (hp : segs.Perm (smallSegments t)) (act : List Int → Resample.SegAct) :
+    (ids ((Resample.planX t act segs (maxId t + 1)).map (Resample.mkNode t) ++ t.filter isRootNode)).Nodup :=
+  Resample.resampleSkipOn_nodup hw hp act
+
+/-- Without failures the loop is the linear model of `Model/Resample.lean` (C13). -/
+theorem resampleSkip_refines (t : Table) (cnt : List Int → Option Nat) :
+    Resample.resampleSkip t (Resample.actOfCnt cnt) = Resample.resampleStruct t cnt :=
+  Resample.resampleSkip_actOfCnt t cnt
+
+/-- Every id of the result is an original id or a fresh one above the old maximum. -/
+theorem resampleSkipOn_ids (t : Table) (hw : WF t) (segs : List (List Int)) (hp : segs.Perm (smallSegments t))
+    (act : List Int → Resample.SegAct) :
+    ∀ i ∈ ids (Resample.resampleSkipOn t segs act), i ∈ ids t ∨ maxId t < i :=
+  Resample.ids_resampleSkipOn_sub hw hp act
+
+/-! ### construction from a graph / an edge list -/
+
+/-- Whatever the edge list (cycles, self loops, repeated edges, edges leaving the vertex set) and whatever
+roots are requested: the parents derived by traversal form a well-formed forest on exactly the given
+vertices (distinct, non-negative), with correct labels. -/
+theorem fromEdges_WF (verts : List Int) (hv : WF (isoTable verts)) (E : List (Int × Int)) (roots : List Int) :
+    WF (fromEdges verts E roots) ∧ labelsOKB (fromEdges verts E roots) = true ∧ ids (fromEdges verts E roots) = verts :=
+  ⟨WF_fromEdges hv E roots, labelsOKB_fromEdges verts E roots, ids_fromEdges verts E roots⟩
+
+/-! ### the whole second layer -/
+
+theorem opX_okB_decides_ok (op : OpX) : op.okB = true ↔ op.ok := OpX.okB_iff op
+
+/-- Every operation of the second layer preserves well-formedness (side condition: foreign inputs —
+stitched skeletons, the vertex list of a graph, an assigned table — are well-formed). -/
+theorem opX_preserves_WF (len : Int → Int → Nat) (t : Table) (hw : WF t) (op : OpX) (hok : op.ok) :
+    WF (applyX len t op) := WF_applyX len hw op hok
+
+theorem opX_labels_ok (len : Int → Int → Nat) (t : Table) (hw : WF t) (hl : labelsOKB t = true) (op : OpX) :
+    labelsOKB (applyX len t op) = true := labelsOK_applyX len hw hl op
+
+/-- Resampling (any method), construction and table assignment return freshly classified nodes whatever
+the labels were before. -/
+theorem opX_labels_fresh (len : Int → Int → Nat) (t : Table) (op : OpX) (h : op.fresh) :
+    labelsOKB (applyX len t op) = true := labels_applyX_fresh len t op h
+
+/-! ### "The soma it reports is always a node that exists" -/
+
+/-- The run-time oracle clause is the property's clause. -/
+theorem somaOKB_spec (t : Table) (l : List Int) : somaOKB t l = true ↔ ∀ i ∈ l, i ∈ ids t := somaOKB_iff t l
+
+/-- The getter reports only existing nodes as long as the members of a stored id LIST exist (a stored
+single id and a detection function are checked by the getter itself). -/
+theorem soma_exists (s : St) (hok : SomaOK s.nodes s.soma) (l : List Int) (h : report s = some l) :
+    ∀ i ∈ l, i ∈ ids s.nodes := report_mem hok h
+
+/-- The hypothesis of `soma_exists` is needed: the getter returns a stored list as it is when at least one
+member exists. -/
+example : report { nodes := [⟨1, -1, 0, 0, 0, .root⟩], soma := .many [1, 7] } = some [1, 7] := by decide
+
+/-- **Every table operation establishes the invariant**, whatever was stored before: each ends in the
+clean-up of `_clear_temp_attr` or `_subset_treeneuron` evaluated on the NEW table (for resampling: after
+re-attaching the soma to new nodes, whatever the nearest-neighbour map `nn` returns). -/
+theorem soma_invariant_after_op (len : Int → Int → Nat) (s : St) (op : OpX) (nn : Int → Nat) (th : List Int) :
+    SomaOK (stepS len s (.tab op nn th)).nodes (stepS len s (.tab op nn th)).soma :=
+  SomaOK_stepSoma s _ nn _
+
+/-- Hence after every table operation the reported soma exists — no hypothesis on the state before. -/
+theorem soma_exists_after_op (len : Int → Int → Nat) (s : St) (op : OpX) (nn : Int → Nat) (th : List Int)
+    (l : List Int) (h : report (stepS len s (.tab op nn th)) = some l) :
+    ∀ i ∈ l, i ∈ ids (stepS len s (.tab op nn th)).nodes :=
+  report_mem (soma_invariant_after_op len s op nn th) h
+
+/-- A freshly constructed skeleton (detection function, no soma, or one validated id) satisfies the
+invariant. -/
+theorem soma_invariant_initial (t : Table) (s : Soma) (h : ∀ l, s ≠ .many l) : SomaOK t s := by
+  cases s with
+  | many l => exact absurd rfl (h l)
+  | _ => trivial
+
+/-- **Histories of states**: from a well-formed, correctly labelled skeleton whose stored soma satisfies
+the invariant, every finite sequence of table operations (with any nearest-neighbour maps and detection
+results), soma assignments and soma resets leaves a state that is well-formed, correctly labelled and
+whose stored soma satisfies the invariant. -/
+theorem states_stay_good (len : Int → Int → Nat) (s : St) (h : GoodSt s) (ops : List OpS) (hok : ∀ op ∈ ops, op.ok) :
+    GoodSt (ops.foldl (stepS len) s) := by
+  induction ops generalizing s with
+  | nil => exact h
+  | cons op ops ih =>
+    exact ih _ (GoodSt_stepS len h op (hok op (List.mem_cons_self ..))) (fun o ho => hok o (List.mem_cons_of_mem _ ho))
+
+/-- **The property's last sentence, for all histories**: whatever is done to a skeleton, every id its
+`.soma` reports afterwards is a node of its table. -/
+theorem soma_exists_history (len : Int → Int → Nat) (s : St) (h : GoodSt s) (ops : List OpS) (hok : ∀ op ∈ ops, op.ok)
+    (l : List Int) (hr : report (ops.foldl (stepS len) s) = some l) : ∀ i ∈ l, i ∈ ids (ops.foldl (stepS len) s).nodes :=
+  report_mem (states_stay_good len s h ops hok).soma hr
+
+theorem opS_okB_decides_ok (op : OpS) : op.okB = true ↔ op.ok := OpS.okB_iff op
+
+/-! ### Tie to the source: facts re-extracted on every run (`translator/gen_somaspec.py` → `Gen/SomaSpec.lean`)
+
+The soma clean-up blocks of `TreeNeuron._clear_temp_attr` and `_subset_treeneuron` and the `skip_errors`
+fall-back of `resample_skeleton` are re-read from the current source; the statements below are about the
+GENERATED definitions and stop checking when the code changes what it does there (e.g. the stored id list is
+no longer filtered by `np.isin`, or the fall-back copies `seg` instead of `seg[:-1]`). -/
+
+/-- The block at the end of `TreeNeuron._clear_temp_attr`, as extracted, is the model's `filterSoma`. -/
+theorem clearTemp_cleanup_is_filterSoma (t : Table) (s : Soma) :
+    cleanUpBy Navis.Gen.SomaSpec.clearTemp t s = filterSoma t s := cleanUpBy_clearTemp t s
+
+/-- The block in `_subset_treeneuron`, as extracted, is the model's `filterSomaSubset` (its guard does not
+exclude a stored detection function, which is why that function is lost). -/
+theorem subset_cleanup_is_filterSomaSubset (t : Table) (s : Soma) :
+    cleanUpBy Navis.Gen.SomaSpec.subsetTree t s = filterSomaSubset t s := cleanUpBy_subsetTree t s
+
+/-- Hence both blocks, as they are written today, establish the invariant behind `soma_exists`. -/
+theorem source_cleanups_establish_invariant (t : Table) (s : Soma) :
+    SomaOK t (cleanUpBy Navis.Gen.SomaSpec.clearTemp t s) ∧
+      SomaOK t (cleanUpBy Navis.Gen.SomaSpec.clearTemp t (cleanUpBy Navis.Gen.SomaSpec.subsetTree t s)) := by
+  rw [cleanUpBy_clearTemp, cleanUpBy_clearTemp]
+  exact ⟨SomaOK_filterSoma t s, SomaOK_filterSoma t _⟩
+
+/-- The rows the `skip_errors` fall-back copies are those of `seg[:-1]`: the model's `.keep` outcome. -/
+theorem resample_keep_rows_are_dropLast (t : Table) (s : List Int) (base : Int) :
+    (Resample.segRowsX t s base .keep).1 =
+      (t.filter fun m => (pySlice Navis.Gen.SomaSpec.keepSlice s).contains m.id).map (fun m => (m.id, m.parent)) := by
+  rw [pySlice_keepSlice]; rfl
+
+/-- The other facts of `resample_skeleton` the model relies on: the fall-back `continue`s without advancing the
+id counter, duplicates are resolved in favour of the first row, the soma is re-attached to ids of the NEW
+table (or reset when there is none), and the function ends in an unconditional `_clear_temp_attr()`. -/
+theorem resample_source_facts :
+    Navis.Gen.SomaSpec.keepContinues = true ∧ Navis.Gen.SomaSpec.dedupKeepsFirst = true ∧
+    Navis.Gen.SomaSpec.pinsToNewIds = true ∧ Navis.Gen.SomaSpec.noSomaSetsNone = true ∧
+    Navis.Gen.SomaSpec.endsWithClear = true := by decide
+
+/-! ### Non-vacuity for the second layer -/
+
+/-- a trunk 1 ← 2 ← 3 ← 4 (branch point) with the arms 4 ← 5 ← 6 ← 7 and 4 ← 8 ← 9; nodes 3 and 6 are thick -/
+def exY : Table := [⟨9, 8, 0, 0, 0, .end_⟩, ⟨8, 4, 0, 0, 0, .slab⟩, ⟨7, 6, 0, 0, 0, .end_⟩, ⟨6, 5, 0, 0, 0, .slab⟩,
+  ⟨5, 4, 0, 0, 0, .slab⟩, ⟨4, 3, 0, 0, 0, .branch⟩, ⟨3, 2, 0, 0, 0, .slab⟩, ⟨2, 1, 0, 0, 0, .slab⟩, ⟨1, -1, 0, 0, 0, .root⟩]
+def sY : St := { nodes := exY, soma := .detect, thick := [3, 6] }
+theorem sY_good : GoodSt sY := ⟨(wfB_decides_WF exY).mp (by decide), by decide, trivial⟩
+
+/-- the segments of `exY` in table order (children before parents): the arm of 9, the arm of 7, the trunk -/
+example : smallSegments exY = [[9, 8, 4], [7, 6, 5, 4], [4, 3, 2, 1]] := by decide
+
+/-- the arm 7 → 4 is KEPT (interpolation refused), the arm of 9 collapses, the trunk gets two fresh nodes:
+the kept rows 7, 6, 5 keep their parents and the branch point 4 has ONE row, pointing at fresh node 11 -/
+def actsY : List (List Int × Resample.SegAct) := [([7, 6, 5, 4], .keep), ([4, 3, 2, 1], .fresh 4)]
+example : (Resample.resampleSkip exY (Resample.actTable actsY)).map (fun n => (n.id, n.parent)) =
+    [(9, 4), (7, 6), (6, 5), (5, 4), (4, 10), (10, 11), (11, 1), (1, -1)] := by decide
+/-- the seeded defect `isin(seg)` instead of `isin(seg[:-1])` would add the stale row (4, 3) before (4, 10);
+with "first occurrence wins" node 4 would point at the replaced node 3: not well-formed -/
+example : wfB [⟨9, 4, 0, 0, 0, .end_⟩, ⟨7, 6, 0, 0, 0, .end_⟩, ⟨6, 5, 0, 0, 0, .slab⟩, ⟨5, 4, 0, 0, 0, .slab⟩, ⟨4, 3, 0, 0, 0, .branch⟩,
+    ⟨10, 11, 0, 0, 0, .slab⟩, ⟨11, 1, 0, 0, 0, .slab⟩, ⟨1, -1, 0, 0, 0, .root⟩] = false := by decide
+
+/-- a history of states: resample with a kept segment (pins the detected somas 6 and 3 to the new nodes
+`nn` picks: here rows 2 and 5 of the new table, ids 6 and 10), then `remove_nodes([6])` drops one of the
+two pinned ids, then a subset that drops the other, then a soma assignment, then construction from edges -/
+def histS : List OpS :=
+  [.tab (.resampleSkip actsY) (fun i => if i = 3 then 5 else 2) [],
+   .tab (.base (.removeNodes [6])) (fun _ => 0) [],
+   .tab (.base (.subset [1, 11, 5, 4, 9])) (fun _ => 0) [],
+   .setSoma 9, .setSoma 77,
+   .tab (.fromEdges [3, 1, 2] [(1, 2), (2, 3), (3, 1), (2, 2)] [2]) (fun _ => 0) [1]]
+example : (List.range histS.length).map (fun k => ((histS.take (k + 1)).foldl (stepS unitLen) sY).soma) =
+    [.many [6, 10], .many [10], .none, .one 9, .one 9, .detect] := by decide
+example : (List.range histS.length).map (fun k => report ((histS.take (k + 1)).foldl (stepS unitLen) sY)) =
+    [some [6, 10], some [10], none, some [9], some [9], some [1]] := by decide
+example : GoodSt (histS.foldl (stepS unitLen) sY) :=
+  states_stay_good unitLen sY sY_good histS (fun op hop => (opS_okB_decides_ok op).mp (by
+    have : histS.all OpS.okB = true := by decide
+    exact List.all_eq_true.mp this op hop))
+/-- the cyclic edge list (1–2, 2–3, 3–1 and a self loop) is turned into a tree rooted at the requested node 2 -/
+example : (fromEdges [3, 1, 2] [(1, 2), (2, 3), (3, 1), (2, 2)] [2]).map (fun n => (n.id, n.parent, n.label)) =
+    [(3, 2, .end_), (1, 2, .end_), (2, -1, .root)] := by decide
+/-- `_subset_treeneuron` replaces a stored detection FUNCTION by `None` (the skeleton then reports no soma),
+`_clear_temp_attr` leaves it alone -/
+example : (stepS unitLen sY (.tab (.base (.subset [1, 2, 3])) (fun _ => 0) [3])).soma = .none := by decide
+example : report (stepS unitLen sY (.tab (.base (.removeNodes [9])) (fun _ => 0) [3, 6])) = some [6, 3] := by decide
+/-- the side conditions are needed: a vertex list with a repeated id / an assigned cyclic table -/
+example : wfB (applyX unitLen exY (.fromEdges [1, 1] [] [])) = false := by decide
+example : wfB (applyX unitLen exY (.setNodes exBad)) = false := by decide
 
 end Navis.Props.C01
